@@ -48,7 +48,8 @@ def check(run, replay=None):
     run.trusted += ["harness tools/props/c20.py (extracts the metric inputs from the wntr objects)"]
     run.assumptions += ["float arithmetic of pandas is compared with exact rational formulas at 1e-9 relative",
                         "the default cost tables inside annual_network_cost are passed explicitly (their numbers are documentation, not logic)",
-                        "the maximum-pump-power formula for head pumps (exp/log) is not modelled; power pumps, pipes, tanks and PRVs are"]
+                        "pi as binary64 in the cylindrical tank volume; the head-pump maximum power is the harness' transcription of the documented formula from the fitted A, B, C",
+                        "the maximum-pump-power formula for head pumps (exp/log) is an input computed by the harness; power pumps, pipes, tanks and PRVs are modelled"]
     ok, log, fails = common.coq_make(["theories/C20/Proofs.vo"])
     if not ok:
         for f, ln, msg in fails:
@@ -181,23 +182,71 @@ def check(run, replay=None):
                     if rs is not None:
                         add("close (pump_cost (pump_energy %s %s) %s) %s tol = true" % (args, Q(float(rs)), Q(wn.options.energy.global_price), Q(float(co.loc[t, n]))),
                             {"check": "pump_energy_cost", "time": int(t), "pump": n, "impl": float(co.loc[t, n])})
-        # cost tables: pipes only (lookup by nearest diameter x length)
+        # cost tables (annual_network_cost: tanks, pipes, pumps, PRVs; annual_ghg_emissions: pipes); the rows of the user tables come in
+        # ascending, descending or arbitrary order -- the documented rule is "the closest entry", not "the closest in a sorted table"
+
+
+        def table(sizes, lo, hi):
+            sizes = list(sizes)
+            order = rng.choice(["ascending", "descending", "shuffled"])
+            if order == "descending":
+                sizes.reverse()
+            elif order == "shuffled":
+                rng.shuffle(sizes)
+            cost = [round(rng.uniform(lo, hi), 2) for _ in sizes]
+            run.count("cost_table_" + order)
+            return pd.Series(cost, sizes), "[" + "; ".join("(%s, %s)" % (Q(d), Q(c)) for d, c in zip(sizes, cost)) + "]", [sizes, cost]
         diam = sorted(rng.sample([0.1, 0.15, 0.2, 0.25, 0.3, 0.35, 0.4, 0.5], 5))
-        cost = [round(rng.uniform(5, 50), 2) for _ in diam]
-        tbl = pd.Series(cost, diam)
+        tbl, tb, tb_m = table(diam, 5, 50)
+        ptbl, ptb, ptb_m = table(diam, 300, 7000)
+        ttbl, ttb, ttb_m = table(sorted(rng.sample([50, 100, 200, 500, 1000, 2000, 5000], 5)), 1e4, 2e5)
+        utbl, utb, utb_m = table(sorted(rng.sample([2000, 5000, 11310, 22620, 31670, 45240, 59710], 5)), 2000, 5000)
         wn2 = wntr.network.WaterNetworkModel()
         wn2.add_junction("A"); wn2.add_junction("B")
-        pipes = []
+        wn2.options.energy.global_efficiency = rng.choice([75.0, 60.0, 82.5])
+        pipes, tank_vols, pmax, prvd = [], [], [], []
         for i in range(rng.randint(1, 5)):
             d, L = rng.choice([0.1, 0.12, 0.175, 0.2, 0.26, 0.33, 0.45, 0.6]), round(rng.uniform(10, 500), 1)
             wn2.add_pipe("p%d" % i, "A", "B", length=L, diameter=d)
             pipes.append((d, L))
-        v = float(wntr.metrics.annual_network_cost(wn2, pipe_cost=tbl))
+        for i in range(rng.randint(0, 3)):
+            d, mx, mn = round(rng.uniform(2, 25), 1), round(rng.uniform(3, 12), 1), round(rng.uniform(0, 2), 1)
+            if rng.random() < 0.35:
+                wn2.add_curve("vc%d" % i, "VOLUME", [(0.0, 0.0), (mx / 2, 0.3 * d * d * mx), (mx + 1, 0.9 * d * d * (mx + 1))])
+                wn2.add_tank("t%d" % i, elevation=10, init_level=mn + 0.5, min_level=mn, max_level=mx, diameter=d, vol_curve="vc%d" % i)
+                xs, ys = [0.0, mx / 2, mx + 1], [0.0, 0.3 * d * d * mx, 0.9 * d * d * (mx + 1)]
+                vmax = ys[1] + (ys[2] - ys[1]) * (mx - xs[1]) / (xs[2] - xs[1])
+                tank_vols.append("(tank_construction_volume_curve %s %s %s)" % (Q(vmax), Q(mn), Q(mx)))
+            else:
+                wn2.add_tank("t%d" % i, elevation=10, init_level=mn + 0.5, min_level=mn, max_level=mx, diameter=d)
+                tank_vols.append(Q(math.pi * (d / 2) ** 2 * mx))
+        for i in range(rng.randint(0, 3)):
+            if rng.random() < 0.5:
+                P = rng.choice([1500.0, 4000.0, 9000.0, 20000.0, 33000.0, 70000.0])
+                wn2.add_pump("u%d" % i, "A", "B", pump_type="POWER", pump_parameter=P)
+                pmax.append("(power_pump_pmax %s %s)" % (Q(P), Q(wn2.options.energy.global_efficiency)))
+            else:
+                q1, h1 = rng.choice([0.01, 0.03, 0.08]), rng.choice([20.0, 35.0, 60.0])
+                wn2.add_curve("hc%d" % i, "HEAD", [(q1, h1)])
+                wn2.add_pump("u%d" % i, "A", "B", pump_type="HEAD", pump_parameter="hc%d" % i)
+                A_, B_, C_ = wn2.get_link("u%d" % i).get_head_curve_coefficients()
+                qs = (A_ / (B_ * (C_ + 1))) ** (1.0 / C_)         # flow of maximum hydraulic power q (A - B q^C)
+                pmax.append(Q(9.81 * 1000 * qs * (A_ - B_ * qs ** C_) / wn2.options.energy.global_efficiency))
+        for i in range(rng.randint(0, 3)):
+            d = rng.choice([0.1, 0.12, 0.175, 0.2, 0.26, 0.33, 0.45, 0.6])
+            vt = rng.choice(["PRV", "PRV", "TCV", "FCV"])
+            wn2.add_valve("v%d" % i, "A", "B", diameter=d, valve_type=vt, initial_setting=10.0)
+            if vt == "PRV":
+                prvd.append(Q(d))
+        v = float(wntr.metrics.annual_network_cost(wn2, tank_cost=ttbl, pipe_cost=tbl, prv_cost=ptbl, pump_cost=utbl))
         g = float(wntr.metrics.annual_ghg_emissions(wn2, pipe_ghg=tbl))
-        tb = "[" + "; ".join("(%s, %s)" % (Q(d), Q(c)) for d, c in zip(diam, cost)) + "]"
         pp = "[" + "; ".join("(%s, %s)" % (Q(d), Q(L)) for d, L in pipes) + "]"
-        add("close (pipes_cost %s %s) %s tol = true" % (tb, pp, Q(v)), {"check": "annual_network_cost(pipes)", "table": [diam, cost], "pipes": pipes, "impl": v})
-        add("close (pipes_cost %s %s) %s tol = true" % (tb, pp, Q(g)), {"check": "annual_ghg_emissions", "table": [diam, cost], "pipes": pipes, "impl": g})
+        lst = lambda xs: "[" + "; ".join(xs) + "]"
+        m_in = {"tank_table": ttb_m, "pipe_table": tb_m, "prv_table": ptb_m, "pump_table": utb_m, "pipes": pipes, "tank_volumes": tank_vols,
+                "pump_pmax_over_efficiency": pmax, "prv_diameters": prvd, "efficiency": wn2.options.energy.global_efficiency}
+        add("close (network_cost %s %s %s %s %s %s %s %s) %s tol = true" % (ttb, tb, ptb, utb, lst(tank_vols), pp, lst(pmax), lst(prvd), Q(v)),
+            dict(m_in, check="annual_network_cost", impl=v))
+        add("close (pipes_cost %s %s) %s tol = true" % (tb, pp, Q(g)), {"check": "annual_ghg_emissions", "table": tb_m, "pipes": pipes, "impl": g})
 
     res_, errors = common.run_prop_cases("C20", HEADER, TACTIC, cases, shard=120)
     for e in errors:
